@@ -273,7 +273,7 @@ def forget_sites(F, P):
 def check_forgets(R, F, P, cfg):
     n = 0
     for (f, bb, ci, ty, adt) in forget_sites(F, P):
-        rootf = P.fns[f.root] if f.kind == "closure" else f
+        rootf = site_root(P, f)
         S = Super(P, rootf, opaque=default_opaque(F) - {rootf.npath})
         nodes = [x for x in S.nodes if x.ctx.fn is f and x.bb == bb]
         for N in nodes:
